@@ -1,0 +1,26 @@
+// SPDX-License-Identifier: BSL-1.1 OR Apache-2.0
+//! Schedule points for deterministic simulation (feature `neumann_verif`).
+//!
+//! Compiled only with the `neumann_verif` feature, which no workspace member
+//! enables. A simulator installs one function; hook sites inside operations
+//! call [`yield_point`] where a thread switch between two critical sections
+//! matters. Without an installed function every call returns at once.
+
+use std::sync::OnceLock;
+
+/// Hook signature: receives the site name, returns `true` when the calling
+/// thread runs under a scheduler that handled the yield.
+pub type Hook = fn(&'static str) -> bool;
+
+static HOOK: OnceLock<Hook> = OnceLock::new();
+
+/// Install the process-wide hook (first call wins).
+pub fn install(hook: Hook) {
+    let _ = HOOK.set(hook);
+}
+
+/// A point where the simulator may run another thread.
+#[inline]
+pub fn yield_point(site: &'static str) -> bool {
+    HOOK.get().is_some_and(|f| f(site))
+}
